@@ -177,7 +177,7 @@ func Traverse(p *core.Prog, r *core.Report) {
 		{"(*defaultValidator).validateDefaultValueSchemaAgainstSchema", "(*exampleValidator).validateExampleValueSchemaAgainstSchema"},
 		{"(*defaultValidator).validateDefaultValueItemsAgainstSchema", "(*exampleValidator).validateExampleValueItemsAgainstSchema"},
 	}
-	required := []string{"Items.Schema", "Items.Schemas", "Properties", "AdditionalProperties.Schema", "AllOf"}
+	required := []string{"Items.Schema", "Items.Schemas", "Properties", "PatternProperties", "AdditionalProperties.Schema", "AdditionalItems.Schema", "AllOf"}
 	nEdges := 0
 	for _, pr := range pairs {
 		fd, fe := p.Func(pr[0]), p.Func(pr[1])
@@ -210,6 +210,17 @@ func Traverse(p *core.Prog, r *core.Report) {
 			} else {
 				r.Bad(rule, key+":sibling", p.Pos(e.at.Pos()), fmt.Sprintf("the default and example walkers disagree on when/where this step is taken: default guards [%s] path %s, example guards [%s] path %s", strings.Join(e.guards, "; "), e.path, strings.Join(cands[0].guards, "; "), cands[0].path))
 			}
+		}
+		// … and the other way round: a step only the example walker takes is a place where defaults are not looked for
+		didx := map[string]bool{}
+		for _, e := range sd {
+			didx[e.what] = true
+		}
+		for _, e := range se {
+			if didx[e.what] || !strings.Contains(e.what, "XValidator") {
+				continue // leaf judgements differ by nature (response examples per media type have no default counterpart)
+			}
+			r.Bad(rule, short(pr[1])+":"+e.what+":sibling", p.Pos(e.at.Pos()), "the example walker performs this traversal step but the default walker does not: defaults below it are never judged")
 		}
 		// category: default leaf results merged as errors, example ones as warnings
 		for _, spec := range []struct {
